@@ -159,6 +159,22 @@ theorem huge_index_error (r : Rec ρ) (i : Num) (v : Bytes) (h : floatToInt i > 
     step M r (.setField i v) = (r, .err (.fieldTooLarge (floatToInt i))) :=
   huge_index M r i v h
 
+/-- a rejected assignment to a field, to NF or to FS leaves the whole record state exactly as it was (so after a rejection
+that the program survives — a `var=value` operand consumed by `getline` — NF is still the number of fields) -/
+theorem rejected_update_unchanged (r : Rec ρ) (op : Op ρ) (e : Err) (h : (step M r op).2 = .err e)
+    (hm : ∀ m, op ≠ .setOutMode m) : (step M r op).1 = r :=
+  rejected_same_state M r op e h hm
+
+/-- a rejected OUTPUTMODE text resets the output mode to the default (as the code does) but leaves the record alone -/
+theorem rejected_outmode_keeps_record (r : Rec ρ) (m : OutMode) (e : Err) (h : (step M r (.setOutMode m)).2 = .err e) :
+    let r' := (step M r (.setOutMode m)).1
+    r'.line = r.line ∧ r'.fields = r.fields ∧ r'.numFields = r.numFields ∧ r'.haveFields = r.haveFields ∧
+      r'.env.csv = none :=
+  rejected_outmode_record M r m e h
+
+example : (step (fun (_ : Unit) _ => []) (Rec.init false) (.setNF (.str [49, 48, 48, 48, 48, 48, 49] (.rat 1000001 1)))).2
+    = .err (.nfTooLarge 1000001) := by decide
+
 /-- the index conversion clamps instead of wrapping: integers in range are themselves; +Inf and NaN do not become small -/
 theorem floatToInt_exact (n : Int) (h1 : minInt < n) (h2 : n < maxInt) : floatToInt (.rat n 1) = n :=
   floatToInt_int n h1 h2
